@@ -10,7 +10,7 @@ from sim.core import SimLivelock, Violation
 from sim.disk import SimDisk
 
 ID = "C02"
-SHRINK_LISTS = ("ops", "faults")
+SHRINK_LISTS = ("ops", "faults", ("files", "nsamps"))
 SHRINK_MIN = {"nchans": 1, "nbits": 1}
 POISON = 0xA5
 
@@ -26,6 +26,19 @@ def warm() -> None:
 
 
 # ------------------------------------------------------------------ generation
+def gen_big_files(rng) -> dict:
+    """A few percent of runs use blocks of several kB..100 kB: size thresholds (a page, a kernel
+    tile, a coalescing buffer) are invisible to 64-sample files."""
+    nbits = rng.choice([1, 1, 2, 4, 8, 16, 32])
+    nchans = rng.choice([c for c in (64, 96, 128, 416, 1024) if (c * nbits) % 8 == 0])
+    nfiles = rng.choice([1, 1, 2, 3])
+    total = rng.randint(600, 3000)
+    cuts = sorted(rng.sample(range(1, total), nfiles - 1)) if nfiles > 1 else []
+    counts = [b - a for a, b in zip([0] + cuts, cuts + [total])]
+    return {"nbits": nbits, "nchans": nchans, "nsamps": counts, "pad": [rng.randint(0, 9) for _ in counts],
+            "vseed": rng.randrange(1 << 16), "mode": "bits", "big": True}
+
+
 def gen_files(rng, max_total=64, allow_multi=True) -> dict:
     nbits = rng.choice([1, 2, 4, 8, 8, 16, 32])
     chans = [c for c in (1, 2, 3, 4, 6, 8, 16) if (c * nbits) % 8 == 0]
@@ -48,7 +61,7 @@ def _layout(files):
 
 
 def generate(rng, tier) -> dict:
-    files = gen_files(rng, max_total=64 if tier == "quick" else 192)
+    files = gen_big_files(rng) if rng.random() < (0.03 if tier == "quick" else 0.1) else gen_files(rng, max_total=64 if tier == "quick" else 192)
     stride, lens, bounds, total = _layout(files)
     item = {16: 2, 32: 4}.get(files["nbits"], 1)
     bitfact = 8 // files["nbits"] if files["nbits"] < 8 else 1
@@ -161,6 +174,8 @@ def execute(sc, ctx) -> None:
         ctx.probe("multi-file")
     if nbits < 8:
         ctx.probe("sub-byte")
+    if files.get("big"):
+        ctx.probe("big-blocks")
     inner = [b for b in bounds[:-1]]
 
     with SimDisk(ctx, sc["faults"], budget_per_op=8 * (len(lens) + 2) + 16) as sim:
